@@ -4,6 +4,7 @@
 package amf0lib
 
 import (
+	"bytes"
 	"fmt"
 	"math"
 	"strconv"
@@ -173,6 +174,16 @@ func Same(t *amf0ref.Tree, a amf0.Amf0, path string) string {
 		if !ok {
 			return fmt.Sprintf("%s: %T has no Get", path, a)
 		}
+		if t.Kind == amf0ref.StrictArray && len(t.Pairs) > 0 && g.Get(KeyOf(t, 0)) == nil {
+			// a strict array that does not retain the keys the API demanded (as the specification layout
+			// implies) cannot be read through Get: compare its bytes with those of the array built from t
+			want, _, _ := Marshal(Build(t))
+			got, err, pm := Marshal(a)
+			if err != nil || pm != "" || !bytes.Equal(got, want) {
+				return fmt.Sprintf("%s: strict array has no element under key %q and marshals as %s instead of %s (err=%v %s)", path, KeyOf(t, 0), hl.Hex(got), hl.Hex(want), err, pm)
+			}
+			return ""
+		}
 		for i, p := range t.Pairs {
 			key := KeyOf(t, i)
 			if d := Same(p.Val, g.Get(key), fmt.Sprintf("%s.Get(%q)", path, key)); d != "" {
@@ -253,15 +264,15 @@ var neutralisers = []neutraliser{
 		}
 		return n
 	})},
-	{"empty-container", mapNodes(func(n *amf0ref.Tree) *amf0ref.Tree {
-		if n.Kind.IsContainer() && len(n.Pairs) == 0 {
-			return amf0ref.Nul()
-		}
-		return n
-	})},
 	{"ecma-array", mapNodes(func(n *amf0ref.Tree) *amf0ref.Tree {
 		if n.Kind == amf0ref.EcmaArray {
 			n.Kind, n.Count = amf0ref.Object, 0
+		}
+		return n
+	})},
+	{"empty-container", mapNodes(func(n *amf0ref.Tree) *amf0ref.Tree {
+		if n.Kind.IsContainer() && len(n.Pairs) == 0 {
+			return amf0ref.Nul()
 		}
 		return n
 	})},
@@ -294,7 +305,7 @@ const StrictFeature = "strict-array-nonempty"
 // most cases have one). eval re-runs the oracle on a modified case.
 //
 // Non-empty strict arrays are the trigger of a known finding, so they are
-// neutralised first (replaced by null): if the case then passes, the feature
+// neutralised first (turned into objects with index keys): if the case then passes, the feature
 // is StrictFeature and f is the original failure. If it still fails, the
 // residual failure of the neutralised case is what gets reported (f is
 // replaced), attributed by the remaining neutralisers, so that the known
@@ -305,7 +316,7 @@ func Attribute(seq []*amf0ref.Tree, f *Failure, eval func([]*amf0ref.Tree) *Fail
 		if f1 == nil {
 			return StrictFeature, f
 		}
-		f1.What = "[with every non-empty strict array replaced by null] " + f1.What
+		f1.What = "[with every non-empty strict array turned into an object] " + f1.What
 		seq, f = s1, f1
 	}
 	for _, n := range neutralisers {
